@@ -87,6 +87,21 @@ CHECKS["C03"] = dict(
     technique="Lean 4 proof (element-level refinement to the Galerkin form, ring/field_simp) + bit-exact model/implementation correspondence on the assembled system + independent weak-form oracle on solver output",
 )
 
+CHECKS["C04"] = dict(
+    category="proof",
+    text=("Lean theorems over Model/Heat.lean and the shared element model: the conductivity table GetK is clamped outside the "
+          "table, exact at its knots, continuous across them and bounded by the neighbouring knot values; the radiation "
+          "boundary linearisation equals the Stefan-Boltzmann flux at a fixed point of the iteration; convection and lumped "
+          "transient terms; the element stiffness / elimination / accumulation theorems of C03 apply to the heat assembler "
+          "verbatim (same element matrix with k in place of eps). GetK is tied to CHMaterialProp::GetK bit for bit on every "
+          "run (in-process harness). The global property (free-node equations with k at the converged temperatures, all "
+          "boundary types 0-3, conductors, reported heat flows, transient steps from a previous solution) is decided per run "
+          "by an independent nonlinear SI assembly evaluated at the temperatures the real hsolver wrote (labelled partial: "
+          "Picard convergence is runtime behaviour; no Lean model of the whole heat assembly yet)."),
+    design_ref="DESIGN.md section 3, C04",
+    technique="Lean 4 proof (ordered-field lemmas on the k(T) table, ring identities, shared element-level refinement) + GetK correspondence + independent nonlinear weak-form oracle on solver output",
+)
+
 NOT_YET = "check not built yet in this round; planned per DESIGN.md section 3 (Lean model + correspondence)"
 
 
